@@ -3,7 +3,7 @@
 
    `LOOP f n ls s ln h acc` is the main loop of lexer::lex at a command boundary (see props/C18.v, C18_loop_is_lex);
    ls carries the log (lx_logs).  Constants (SAKURA_MAX_LOGS, SAKURA_MAX_LOGS_CHARS, LEX_MAX_ERROR) and message texts
-   (the msg_en_ constants) are regenerated from /repo on every run (coq/gen/Consts.v, Messages.v).
+   (msg_X ja = the text of message X in the language of the song, lx_ja ls; the msg_en_ / msg_ja_ constants) are regenerated from /repo on every run (coq/gen/Consts.v, Messages.v).
 
    Proved on the model, for all inputs: the log bounds; the exact effect of an unknown character / an unknown
    word / End at a command boundary; the line counter over any mixture of separators, line breaks, comments and
@@ -12,7 +12,7 @@
    the modelled fragment), and "with debug off nothing is written to stdout" (observed on the process; the pin
    C19_unguarded_prints lists the only print sites of the library that are not behind a debug test). *)
 From Coq Require Import String.
-From Sakura.Model Require Import Base Cursor Song Token LexCore RunCore Compile.
+From Sakura.Model Require Import Base Cursor Song Token LexCore RunCore Compile Msg.
 From Sakura.Gen Require Import Consts Messages SysFuncRows WriteSites.
 From Sakura.Proofs Require Import LayoutP LogP LocalityP LogExecP FuelMonoP.
 From Sakura.Gen Require Import VarRows.
@@ -52,11 +52,11 @@ Proof. exact lex_log_ok. Qed.
 Theorem C19_lex_error_cap : forall ls s ln m,
   (zlen (lx_logs ls) < LEX_MAX_ERROR ->
      lx_logs (lex_error ls s ln m)
-     = lx_logs ls ++ [zs "[ERROR](" ++ show_int ln ++ zs ") " ++ msg_en_UnknownChar ++ zs ": """ ++ m ++ zs """ "
-                      ++ msg_en_Near ++ zs " """ ++ near_text s ++ zs """"]) /\
+     = lx_logs ls ++ [zs "[ERROR](" ++ show_int ln ++ zs ") " ++ msg_UnknownChar (lx_ja ls) ++ zs ": """ ++ m ++ zs """ "
+                      ++ msg_Near (lx_ja ls) ++ zs " """ ++ near_text s ++ zs """"]) /\
   (zlen (lx_logs ls) = LEX_MAX_ERROR ->
      lx_logs (lex_error ls s ln m)
-     = lx_logs ls ++ [zs "[ERROR](" ++ show_int ln ++ zs ") " ++ msg_en_TooManyErrorsInLexer]) /\
+     = lx_logs ls ++ [zs "[ERROR](" ++ show_int ln ++ zs ") " ++ msg_TooManyErrorsInLexer (lx_ja ls)]) /\
   (LEX_MAX_ERROR < zlen (lx_logs ls) -> lex_error ls s ln m = ls) /\
   (zlen (lx_logs ls) <= LEX_MAX_ERROR + 1 -> zlen (lx_logs (lex_error ls s ln m)) <= LEX_MAX_ERROR + 1) /\
   lx_timebase (lex_error ls s ln m) = lx_timebase ls /\ lx_vars (lex_error ls s ln m) = lx_vars ls /\
@@ -97,8 +97,8 @@ Theorem C19_unknown_word_step : forall f n ls (c : Z) (w' r1 : list Z) ln h acc,
 Proof. exact unknown_word_step. Qed.
 Theorem C19_syntax_error_entry : forall ls s ln w, zlen (lx_logs ls) < SAKURA_MAX_LOGS ->
   lx_logs (read_error_cmd ls s ln w)
-  = lx_logs ls ++ [zs "[ERROR](" ++ show_int ln ++ zs ") " ++ msg_en_ScriptSyntaxError ++ zs " """ ++ w ++ zs """ "
-                   ++ msg_en_Near ++ zs " """ ++ near_text_raw s ++ zs """"].
+  = lx_logs ls ++ [zs "[ERROR](" ++ show_int ln ++ zs ") " ++ msg_ScriptSyntaxError (lx_ja ls) ++ zs " """ ++ w ++ zs """ "
+                   ++ msg_Near (lx_ja ls) ++ zs " """ ++ near_text_raw s ++ zs """"].
 Proof. exact read_error_cmd_entry. Qed.
 
 (* ---- End / END: everything after it yields no token ---- *)
@@ -135,15 +135,15 @@ Proof. reflexivity. Qed.
 
 (* non-vacuity: "c!de" style input at loop level, an unknown word, End, and a mixed layout/error source *)
 Example C19_example :
-  (exists ls', lex (mkLex 96 [] [] []) (zs "c!de") 0
+  (exists ls', lex (mkLex 96 [] [] [] false) (zs "c!de") 0
      = Ok ([TLineNo 0; TNote 0 0 0 [] 0 (-1) ISIZE_MIN (-1) 0; TNote 2 0 0 [] 0 (-1) ISIZE_MIN (-1) 0;
             TNote 4 0 0 [] 0 (-1) ISIZE_MIN (-1) 0], ls')
      /\ lx_logs ls' = [zs "[ERROR](0) Unknown Character: ""!"" near ""de"""]) /\
-  unknown_word (mkLex 96 [] [] []) (zs "Foo") (zs " c") 3 = true /\
-  lx_logs (read_error_cmd (mkLex 96 [] [] []) (zs "c") 3 (zs "Foo")) = [zs "[ERROR](3) Syntax Error ""Foo"" near ""c"""] /\
-  lex (mkLex 96 [] [] []) (zs "End c") 0 = Ok ([TLineNo 0], mkLex 96 [] [] []) /\
+  unknown_word (mkLex 96 [] [] [] false) (zs "Foo") (zs " c") 3 = true /\
+  lx_logs (read_error_cmd (mkLex 96 [] [] [] false) (zs "c") 3 (zs "Foo")) = [zs "[ERROR](3) Syntax Error ""Foo"" near ""c"""] /\
+  lex (mkLex 96 [] [] [] false) (zs "End c") 0 = Ok ([TLineNo 0], mkLex 96 [] [] [] false) /\
   forallb litem_ok [LBad 33; LNewline; LLine [120]; LBad 126; LNewline] = true /\
-  lx_logs (items_ls (mkLex 96 [] [] []) [] 0 [LBad 33; LNewline; LLine [120]; LBad 126; LNewline])
+  lx_logs (items_ls (mkLex 96 [] [] [] false) [] 0 [LBad 33; LNewline; LLine [120]; LBad 126; LNewline])
   = [zs "[ERROR](0) Unknown Character: ""!"" near """ ++ [8629] ++ zs "//x" ++ [8629] ++ zs "~" ++ [8629] ++ zs """";
      zs "[ERROR](2) Unknown Character: ""~"" near """ ++ [8629] ++ zs """"].
 Proof. repeat split; try (vm_compute; reflexivity). eexists; split; vm_compute; reflexivity. Qed.
@@ -195,8 +195,8 @@ Proof. exact end_example. Qed.
 Theorem C19_after_end_compile : forall (its0 : list litem) (p : cprog) (t : list Z) lsA lnA hA accA lsB lnB hB accB,
   forallb litem_ok its0 = true -> forallb is_layout its0 = true ->
   lex_pre (print_items its0 ++ print_cprog p ++ zs "End" ++ t) = false -> lex_pre (print_items its0 ++ print_cprog p ++ zs "End") = false ->
-  (forall f, runs f (mkLex 96 [] init_vars rhythm_rows) (0 + items_lines its0) false ([TLineNo 0] ++ items_toks 0 its0) p (zs "End" ++ t) lsA lnA hA accA) ->
-  (forall f, runs f (mkLex 96 [] init_vars rhythm_rows) (0 + items_lines its0) false ([TLineNo 0] ++ items_toks 0 its0) p (zs "End") lsB lnB hB accB) ->
+  (forall f, runs f (mkLex 96 [] init_vars rhythm_rows false) (0 + items_lines its0) false ([TLineNo 0] ++ items_toks 0 its0) p (zs "End" ++ t) lsA lnA hA accA) ->
+  (forall f, runs f (mkLex 96 [] init_vars rhythm_rows false) (0 + items_lines its0) false ([TLineNo 0] ++ items_toks 0 its0) p (zs "End") lsB lnB hB accB) ->
   compile (print_items its0 ++ print_cprog p ++ zs "End") <> OutOfFuel ->
   compile (print_items its0 ++ print_cprog p ++ zs "End" ++ t) = compile (print_items its0 ++ print_cprog p ++ zs "End").
 Proof. exact after_end_compile. Qed.
